@@ -540,9 +540,13 @@ pub mod implementations {
         let callback_state = if len != 1 {
             let mut arguments = HashMap::with_capacity(len - 1); // maybe len
             for var_name in &args[1..] {
-                let var = if let Some(var) = ctx.load_variable(var_name) {
+                // same order as `load`: the creating function's own variable, then what it
+                // captured itself, then a caller's variable of that name
+                let var = if let Ok(var) = ctx.load_local(var_name) {
                     var
                 } else if let Ok(var) = ctx.load_callback_variable(var_name) {
+                    var
+                } else if let Some(var) = ctx.load_variable(var_name) {
                     var
                 } else {
                     bail!("{var_name} is not in scope")
@@ -1207,9 +1211,14 @@ pub mod implementations {
             bail!("load requires a name")
         };
 
-        let var = if let Some(var) = ctx.load_variable(name) {
+        // a name means, in this order: a variable of the running function, a variable the
+        // function captured when it was created, and only then whatever a caller happens to
+        // have under that name (module-level code that is still on the stack)
+        let var = if let Ok(var) = ctx.load_local(name) {
             var
         } else if let Ok(var) = ctx.load_callback_variable(name) {
+            var
+        } else if let Some(var) = ctx.load_variable(name) {
             var
         } else {
             bail!("load before store (`{name}` not in scope)")
